@@ -101,6 +101,18 @@ theorem offsets_agree_record_total (fs : Tys) (L : Layout) (h : layoutOf (.recor
   obtain ⟨off, t, a, b, c⟩ := getField_total fs n 0 _ vs hvs hn
   exact ⟨off, t, a, b, by simpa using c⟩
 
+/-- **T3 (the five enum loops start alike)** — `layout_of`, `Lowerer::location`,
+    `generate_clone_body_enum`, `generate_drop_body_enum` and
+    `generate_eq_body_enum` each begin their per-variant loop with their own
+    `builder.add(&Layout::of::<u8>())`; over the constants regenerated from
+    each function's own source the five start states coincide (tag = 1 byte,
+    align 1), and `()` is `size 0, align 1`. -/
+theorem enum_loops_start_alike :
+    variantStartLoc = variantStart ∧ variantStartClone = variantStart ∧
+    variantStartDrop = variantStart ∧ variantStartEq = variantStart ∧
+    tagLayout = Layout.new 1 1 ∧ Gen.LayoutLoops.unit_layout = Layout.new 0 1 :=
+  loop_constants_agree
+
 /-- **T3 `offsets_agree` (enum variants)** — for every inhabited variant, the
     `VariantField` loop of `Lowerer::location` finds every field at the offset
     `layout_of` placed it, and the per-variant loops of the generated clone,
